@@ -41,7 +41,7 @@ def _build(rng):
     defines = {}
     for i in range(nd):
         defines[f"d_{'abc'[i]}"] = rng.choice([0, 1, 5, 0x10, 0xFF, 0x1234, 0x12345])
-    prof = progen.Profile(max_stmts=12, reloc_ram=False, big_incbin=False, defines=defines, org_weight=8)
+    prof = progen.Profile(max_stmts=12, reloc_ram=False, big_incbin=rng.random() < 0.25, defines=defines, org_weight=8)
     case = progen.generate(rng, prof, rom=rom)
     case["defines"] = defines
     case["define_forms"] = [rng.choice(["d", "x"]) for _ in defines]
